@@ -275,14 +275,30 @@ func attrRules(c *Check, pg *PG, name, loopX, keyT, valT, critList string, eqAto
 	}
 	c.floor(name+" attribute append labels", 2, len(sites))
 	good := len(sites) > 0
+	setForm := false
 	var det []string
 	for _, l := range sites {
 		a, _ := isAttrAppend(l)
 		k, v, cr := structGet(a, "Key"), structGet(a, "Value"), structGet(a, "Critical")
-		if k == nil || k.Key() != keyT || v == nil || v.Key() != valT || cr == nil || (cr.Key() != "true" && cr.Key() != "false") {
+		if k == nil || k.Key() != keyT || v == nil || v.Key() != valT || cr == nil || (cr.Key() != "true" && cr.Key() != "false" && !listSetLookup(cr, keyT, critList)) {
 			good = false
 			det = append(det, c.P.pos(l.Node.Pos)+": "+a.Key())
 		}
+		if cr != nil && listSetLookup(cr, keyT, critList) {
+			setForm = true
+		}
+	}
+	if setForm {
+		// set form: the crit list is indexed once into a local set and the
+		// criticality is the presence of the key in it. The set holds exactly
+		// the list when (a) every layer of the set term is keyed by a list
+		// element (listSetLookup above) and (b) every iteration over the list
+		// stores its element.
+		fill := LP{Desc: "store crit element into the set", F: func(l Label) bool {
+			return l.Kind == "lstore" && l.T != nil && l.T.Op == "index" && len(l.T.Args) == 2 && l.T.Args[1].Key() == "re("+critList+")" && isListSet(l.T.Args[0], critList)
+		}}
+		c.floor(name+" crit set fill sites", 1, len(distinctEdgeNodes(pg, fill)))
+		c.perIteration(pg, "O-C13.3", name+": every crit element enters the criticality set", "every iteration over the crit list stores its element into the set the criticality is looked up in", critList, fill)
 	}
 	c.add("O-C13.3", name+": attribute carries the key, its own value and a decided criticality", "every Attribute appended has Key = the surviving key, Value = the protected map's value for the same key, Critical = the result of the membership scan", good, "", det...)
 	isApp := func(crit string) LP {
@@ -362,4 +378,37 @@ func findAttrWriter(c *Check, f format) string {
 		}
 	}
 	return ""
+}
+
+// isListSet: a tracked local map every layer of which was stored under an
+// element of the list (so its key set is a subset of the list's elements).
+func isListSet(m *Term, list string) bool {
+	for depth := 0; m != nil && depth < 64; depth++ {
+		switch m.Op {
+		case "maplit":
+			return len(m.Args) == 0
+		case "call":
+			return m.Name == "make" && isMapValue(m)
+		case "mapset":
+			if k := m.Args[1].Key(); k != "re("+list+")" && k != "old(re("+list+"))" {
+				return false
+			}
+			m = m.Args[0]
+		default:
+			return false
+		}
+	}
+	return false
+}
+
+// listSetLookup: cr is the presence of key in a set built from the list: the
+// ok of a lookup, or the value of a lookup in an all-true bool map.
+func listSetLookup(cr *Term, key, list string) bool {
+	ix := cr
+	if cr.Op == "ok" && len(cr.Args) == 1 {
+		ix = cr.Args[0]
+	} else if cr.Op != "index" || len(cr.Args) != 2 || !allTrueBoolMap(cr.Args[0]) {
+		return false
+	}
+	return ix.Op == "index" && len(ix.Args) == 2 && ix.Args[1].Key() == key && isListSet(ix.Args[0], list)
 }
